@@ -343,7 +343,7 @@ SPECS["C12"] = {
 
 SPECS["C10"] = {
     "explanation": "The real TagHandler (NewTagHandler, DispatchMetricMap, uniqueFilterAndAddTags, uniqueTags(WithSeen)) and StringMatch (NewStringMatch parsing of '!', "
-                   "trailing '*', 'regex:'; Match; MatchAny; MatchAnyMultiple) are run on a counter with a symbolic 1-byte name and 1..3 symbolic 1-byte tags (every "
+                   "trailing '*', 'regex:'; Match; MatchAny; MatchAnyMultiple) are run on a counter with a symbolic 1-byte name and 0..3 symbolic 1-byte tags (every "
                    "byte value, so duplicates and collisions with static tags and patterns are frequent), 0..2 symbolic static tags and 0..3 filters whose pattern "
                    "lists, pattern kinds (exact / prefix / inverted / regex), pattern bytes and drop-metric / drop-host flags are symbolic. The outcome is compared "
                    "with a specification written from FILTERING.md with plain set operations: dropped iff some satisfied filter has drop-metric; otherwise the tags "
@@ -356,9 +356,9 @@ SPECS["C10"] = {
     "assumptions": STUBS_COMMON + [MATH_NOTE],
     "jobs": [
         {"pkg": "./pkg/statsd", "harness": "pkg/statsd", "mode": "math",
-         "entries": {"quick": ["VerifC10_NoFilter_2_1", "VerifC10_NoFilter_3_2", "VerifC10_Filter1_1_1", "VerifC10_Filter1_2_1", "VerifC10_Filter1Re_1_1", "VerifC10_Filter2_1_0",
+         "entries": {"quick": ["VerifC10_NoFilter_2_1", "VerifC10_NoFilter_3_2", "VerifC10_Filter1_0_0", "VerifC10_Filter1_0_1", "VerifC10_Filter2_0_0", "VerifC10_Filter1_1_1", "VerifC10_Filter1_2_1", "VerifC10_Filter1Re_1_1", "VerifC10_Filter2_1_0",
                                "VerifC10_CollideCounter", "VerifC10_CollideTimer", "VerifC10_CollideSet", "VerifC10_Twin"],
-                     "thorough": ["VerifC10_NoFilter_2_1", "VerifC10_NoFilter_3_2", "VerifC10_Filter1_1_1", "VerifC10_Filter1_2_1", "VerifC10_Filter1Re_1_1", "VerifC10_Filter2_1_0",
+                     "thorough": ["VerifC10_NoFilter_2_1", "VerifC10_NoFilter_3_2", "VerifC10_Filter1_0_0", "VerifC10_Filter1_0_1", "VerifC10_Filter2_0_0", "VerifC10_Filter1_1_1", "VerifC10_Filter1_2_1", "VerifC10_Filter1Re_1_1", "VerifC10_Filter2_1_0",
                                   "VerifC10_Filter2_2_1", "VerifC10_Filter3_1_0",
                                   "VerifC10_CollideCounter", "VerifC10_CollideTimer", "VerifC10_CollideSet", "VerifC10_Twin"]},
          "reach": {"VerifC10_Filter1_1_1": ["dropped", "forwarded", "host-cleared"], "VerifC10_CollideCounter": ["collided", "distinct"], "VerifC10_CollideSet": ["collided"]},
@@ -514,7 +514,7 @@ SPECS["C17"] = {
     "explanation": "RELAY EVENTS: statsdaemon.constructEventMessage(e) is fed to the real lexer: for every event with title/text over the property's alphabet plus space (text optionally "
                    "containing a real newline, never a literal backslash-n pair), symbolic date, optional source / aggregation key / source type, priority, alert type and 0..2 tags, the "
                    "parse succeeds and returns the same fields (source as h:). RELAY LINES: the lines processMetrics emits for a counter, gauge, timer or set with a symbolic name, tag "
-                   "and set member parse back to the same name, tags (source as an extra s: tag), counter total, values and member; statsd.-prefixed counters are skipped. PACKING: for "
+                   "and set member parse back to the same name, tags (source as an extra s: tag), counter total, values and member; statsd.-prefixed counters are skipped - and only those (names that merely begin with the letters statsd are relayed). PACKING: for "
                    "0..4 lines of different lengths and a symbolic packet size, no emitted datagram exceeds the packet size unless it holds a single line, every datagram ends with a "
                    "complete line and every line is emitted exactly once. BATCHES: influxdb (1..metrics-per-batch series per callback, counts add up, one line per series, ceil(k/batch) "
                    "callbacks), datadog (every sub-metric of every series exactly once, host and tags carried), newrelic (every series once), otlp groups (no batch above the batch size, "
@@ -529,9 +529,9 @@ SPECS["C17"] = {
     "assumptions": STUBS_COMMON + [MATH_NOTE, PF_STUB],
     "jobs": [
         {"pkg": "./pkg/backends/statsdaemon", "harness": "pkg/backends/statsdaemon", "mode": "math",
-         "entries": {"quick": ["VerifC17_Event_1_1", "VerifC17_Event_0_0", "VerifC17_Event_1_2NL", "VerifC17_Lines", "VerifC17_Packing", "VerifC17_Twin"],
-                     "thorough": ["VerifC17_Event_1_1", "VerifC17_Event_0_0", "VerifC17_Event_1_2NL", "VerifC17_Event_2_2", "VerifC17_Lines", "VerifC17_Packing", "VerifC17_Twin"]},
-         "reach": {"VerifC17_Event_1_1": ["event-roundtrip"], "VerifC17_Lines": ["lines-roundtrip"], "VerifC17_Packing": ["packed"]},
+         "entries": {"quick": ["VerifC17_Event_1_1", "VerifC17_Event_0_0", "VerifC17_Event_1_2NL", "VerifC17_Lines", "VerifC17_RelayPrefix", "VerifC17_Packing", "VerifC17_Twin"],
+                     "thorough": ["VerifC17_Event_1_1", "VerifC17_Event_0_0", "VerifC17_Event_1_2NL", "VerifC17_Event_2_2", "VerifC17_Lines", "VerifC17_RelayPrefix", "VerifC17_Packing", "VerifC17_Twin"]},
+         "reach": {"VerifC17_Event_1_1": ["event-roundtrip"], "VerifC17_Lines": ["lines-roundtrip"], "VerifC17_RelayPrefix": ["prefix"], "VerifC17_Packing": ["packed"]},
          "twin": {"VerifC17_Twin": True},
          "limits": {"quick": {"timeout": "900s"}, "thorough": {"timeout": "3000s"}}},
         {"pkg": "./pkg/statsd", "harness": "pkg/statsd", "mode": "machine", "workers": 8,
@@ -575,8 +575,10 @@ SPECS["C16"] = {
                    "callback exactly once, a non-nil error when some attempted batch was never accepted, none when nothing failed, every attempt of a batch carries the same body, no batch is retried once an attempt that began after the "
                    "retry window (30 s) has failed, SendMetricsAsync does not block (a blocked harness is a violation, replayed natively by time-out), every request buffer is back in the pool "
                    "(unless shut down). CLOUDWATCH: the real SendMetricsAsync (buildMetricData, the 20-per-call loop in its goroutine) against a harness CloudwatchClient whose "
-                   "calls fail or not, 0..3 gauges and 0..2 timers (0..21 data, i.e. 0, 1 or 2 calls): callback exactly once, one error per failed call, 1..20 data per call, every datum once. "
-                   "The flusher's WaitGroup accounting over callbacks is exercised by C01's flushData entries.",
+                   "calls fail or not, 0..3 gauges and 0..2 timers (0..21 data, i.e. 0, 1 or 2 calls): callback exactly once (also when a call coincides with shutdown), one error per failed call, 1..20 data per call, every datum once. "
+                   "FLUSHER: the real flushData (Process over the BackendHandler's worker goroutines, Flush / Process / Reset, sendMetricsAsync with its wait group) with 1..3 backends "
+                   "that answer at once or later, with or without an error, one of which may coincide with shutdown: the flush returns once every backend has answered (blocked = "
+                   "violation), every backend is handed each aggregator's map exactly once per flush, a second flush is still carried out. The flusher's WaitGroup accounting over callbacks is exercised by C01's flushData entries.",
     "bounds": {"quick": "1..2 streams x 1..2 buffers, <= 3..5 connect/write operations per run (longer scripts are cut by an assumption), <= 3 rounds; rollover: 101 one-buffer streams, <= 4 dials, writes never fail; OTLP / influxdb / datadog / newrelic: <= 3 attempts in total, 1..2 batches, 0..2 free buffers",
                "thorough": "adds 2 streams x 2 buffers x 3 rounds with harness-owned time"},
     "outside": ["the AWS SDK behind cloudwatch's CloudwatchClient interface (the harness implements the interface; the backend has no retry logic of its own)", "stdout and null backends "
@@ -600,7 +602,7 @@ SPECS["C16"] = {
         {"pkg": "./pkg/backends/graphite", "harness": "pkg/backends/graphite", "mode": "machine",
          "entries": {"quick": ["VerifC16_Graphite1", "VerifC16_Graphite2"]}, "reach": {"*": ["clean", "faulty"]}, "limits": {"quick": {"timeout": "600s"}}},
         {"pkg": "./pkg/backends/cloudwatch", "harness": "pkg/backends/cloudwatch", "mode": "machine",
-         "entries": {"quick": ["VerifC16_Cloudwatch"]}, "reach": {"*": ["clean", "failed", "two-calls", "empty"]}, "blocked_is_violation": True, "limits": {"quick": {"timeout": "600s"}}},
+         "entries": {"quick": ["VerifC16_Cloudwatch"]}, "reach": {"*": ["clean", "failed", "two-calls", "empty", "cancelled"]}, "blocked_is_violation": True, "limits": {"quick": {"timeout": "600s"}}},
         {"pkg": "./pkg/backends/influxdb", "harness": "pkg/backends/influxdb", "mode": "machine",
          "entries": {"quick": ["VerifC16_Influx", "VerifC16_InfluxTwin"], "thorough": ["VerifC16_Influx", "VerifC16_InfluxFull", "VerifC16_InfluxTwin"]},
          "reach": {"VerifC16_Influx": ["clean", "all-failed", "partial-failure", "cancelled"], "VerifC16_InfluxFull": ["clean", "all-failed", "partial-failure", "cancelled"]},
@@ -612,6 +614,8 @@ SPECS["C16"] = {
          "entries": {"quick": ["VerifC16_NewRelic"], "thorough": ["VerifC16_NewRelic", "VerifC16_NewRelicCancel", "VerifC16_NewRelicTypes", "VerifC16_NewRelicKey"]},
          "reach": {"*": ["clean", "all-failed", "partial-failure"], "VerifC16_NewRelicCancel": ["clean", "all-failed", "partial-failure", "cancelled"]},
          "blocked_is_violation": True, "limits": {"quick": {"timeout": "900s"}, "thorough": {"timeout": "3000s"}}},
+        {"pkg": "./pkg/statsd", "harness": "pkg/statsd", "mode": "machine",
+         "entries": {"quick": ["VerifC16_Flusher"]}, "reach": {"*": ["flushed-twice-or-shutdown"]}, "blocked_is_violation": True, "limits": {"quick": {"timeout": "600s"}}},
     ],
 }
 
